@@ -6,7 +6,7 @@ import random, json
 
 DECL = "b: bool, n: usize, s: &str, xs: &[u32], o: Option<u32>, ps: &[(u32, u32)]"
 ARGSETS = [
-  dict(b=True,  n=0, s="a<b", xs=[], o=None, ps=[]),
+  dict(b=True,  n=0, s="a<bc>", xs=[], o=None, ps=[]),                                   # ends in a special character after a run of plain ones
   dict(b=False, n=1, s="x&'\"\u00e9\u20ac\U0001d11e", xs=[7], o=3, ps=[(1, 2)]),     # special characters and 2-, 3-, 4-byte scalars
   dict(b=True,  n=2, s="",    xs=[1, 2, 3], o=0, ps=[(1, 2), (3, 4)]),
 ]
@@ -114,6 +114,11 @@ class Gen:
             elif k == "if":
                 chain = [(R.randrange(len(CONDS)), self.items(depth - 1, nlocals)) for _ in range(R.randint(1, 3))]
                 els = self.items(depth - 1, nlocals) if R.random() < 0.6 else None
+                if depth > 1 and R.random() < 0.12:
+                    # an else body that holds one nested @if between white space (and perhaps a comment): the white space is text of the else branch, not layout
+                    ws = lambda: ("text", R.choice([" ", "\n", "\n    ", "\t", " \r\n", "\u00a0"]))
+                    inner = ("if", [(R.randrange(len(CONDS)), self.items(depth - 2, nlocals))], self.items(depth - 2, nlocals) if R.random() < 0.5 else None)
+                    els = [ws(), inner] + ([("cmt", R.choice(self.cmt_bodies))] if R.random() < 0.3 else []) + ([ws()] if R.random() < 0.8 else [])
                 out.append(("if", chain, els))
                 if els is None and R.random() < 0.35:
                     # literal text that reads like the start of an else branch: nothing of it may be swallowed
@@ -211,7 +216,7 @@ class Gen:
                 elif kind == 1:
                     pats = ["0", "1", "_"]; scr = "n"; nns = [names] * 3
                 elif kind == 2:
-                    pats = ['"x"', '"a<b"', '""', "_"]; scr = "s"; nns = [names] * 4
+                    pats = ['"x"', '"a<bc>"', '""', "_"]; scr = "s"; nns = [names] * 4
                 elif kind == 3:
                     pats = ["(_, true)", "(0, _)", "_"]; scr = "(n, b)"; nns = [names] * 3
                 else:
@@ -273,7 +278,7 @@ class Gen:
                     else: r += self.render(arms[1], env, names, callee_bodies, slots)
                 elif kind == 1: r += self.render(arms[min(env["n"], 2)], env, names, callee_bodies, slots)
                 elif kind == 2:
-                    i = {"x": 0, "a<b": 1, "": 2}.get(env["s"], 3)
+                    i = {"x": 0, "a<bc>": 1, "": 2}.get(env["s"], 3)
                     r += self.render(arms[i], env, names, callee_bodies, slots)
                 elif kind == 3:
                     i = 0 if env["b"] else 1 if env["n"] == 0 else 2
